@@ -580,9 +580,9 @@ def r16_symbol_table_registration(chk, rule='C03.R16'):
     clauses = ir.clause_model(model)
     chk.doc(rule, 'each of the eleven clause handlers of SymtableCodeGen calls self.regSym(transOpers(<declared name>), '
                   '<record>[, parents]) exactly once on every path (genTypeDeclaration: under `declaration` / parent type '
-                  'only); the record is a dict display holding origName = the declared name, plus oid for OID-bearing '
-                  'clauses and syntax for OBJECT-TYPE and type declarations - the members genNumericOid / getBaseType read')
-    need = {'typeDeclaration': set(['syntax', 'origName'])}
+                  'only); the record is a dict display holding oid for OID-bearing clauses and syntax for OBJECT-TYPE and type '
+                  'declarations - the members genNumericOid / getBaseType read (type / origName / defval are read by nobody)')
+    need = {'typeDeclaration': set(['syntax'])}
     n = 0
     for tag in sorted(clauses):
         hname = stbl.get(tag)
@@ -621,16 +621,12 @@ def r16_symbol_table_registration(chk, rule='C03.R16'):
                 disp = rec
             keys = dict((k.value, v) for k, v in zip(disp.keys, disp.values) if isinstance(k, ast.Constant)) if disp \
                 is not None else {}
-            want = need.get(tag, set(['oid', 'origName']) | (set(['syntax']) if tag == 'objectTypeClause' else set()))
+            want = need.get(tag, set(['oid']) | (set(['syntax']) if tag == 'objectTypeClause' else set()))
             missing = sorted(want - set(keys))
             n += 1
             chk.ob(rule, key + '/record-members', disp is not None and not missing, where(o.mod, r),
                    'the record lacks %s' % missing if disp is not None else 'the record is not a dict display')
-            if 'origName' in keys:
-                n += 1
-                chk.ob(rule, key + '/origName', _key_is(keys['origName'], namevar), where(o.mod, r),
-                       'origName must be the declared name (%s), found %s' % (namevar, norm(keys['origName'])))
-    chk.floor(rule, 30, 'eleven symbol-table clause handlers')
+    chk.floor(rule, 20, 'eleven symbol-table clause handlers')
 
 
 
@@ -679,7 +675,34 @@ def r19_clause_components_not_replaced(chk, rule='C03.R19', both=True):
     chk.floor(rule, 11, 'clause handlers')
 
 
+
+def r20_imports_entry_always_built(chk):
+    """the document always carries an `imports` entry (at least the constant base-module imports): genCode calls
+    genImports for every module, also one without an IMPORTS clause"""
+    model = chk.model
+    ci = model.cls(INTER, 'IntermediateCodeGen')
+    o, fn = ci.find_method('genCode')
+    chk.doc('C03.R20', 'IntermediateCodeGen.genCode calls self.genImports(...) in a top-level statement (not under a test '
+                       'of the IMPORTS clause) and starts the document from its result')
+    calls = [c for c in walk_no_nested(fn) if isinstance(c, ast.Call) and common.is_self_attr(c.func, 'genImports')]
+    top = [c for c in calls if common.stmt_of(c) in fn.body]
+    chk.ob('C03.R20', 'genCode/genImports-unconditional', len(calls) == 1 and len(top) == 1,
+           where(ci.mod, calls[0]) if calls else where(ci.mod, fn),
+           'genImports is called %d time(s), %d of them unconditionally' % (len(calls), len(top)))
+
+
+
+def r21_column_list_normalised(chk):
+    """node types come from the symbol table's published column list: it must hold the names in the spelling they are
+    looked up under (shared with C06.R1)"""
+    from rules.C06 import r1_normalisation
+    common.reuse(chk, r1_normalisation, ('C06.R1',), 'C03.R21',
+                 'the tables the node classification reads (_symtable_cols, _symtable_rows, import map) are filled and '
+                 'queried in the same (normalised) spelling (C06.R1)', keep=lambda o: '_symtable' in o.key or 'cols' in o.key,
+                 floor=1)
+
+
 RULES = [r1_kinds, r2_one_registration, r3_classes, r4_field_provenance, r5_emission, r6_transopers_siblings,
          r7_json_document, r8_nodetype, r9_revision_time, r10_per_module_state, r11_argument_agreement,
          r12_fields_not_gated_by_text_switch, r13_collectors,
-         r14_record_completeness, r17_declared_names, r_absent_values_C03_R15, r16_symbol_table_registration, r18_names_are_case_sensitive, r19_clause_components_not_replaced]
+         r14_record_completeness, r17_declared_names, r_absent_values_C03_R15, r16_symbol_table_registration, r18_names_are_case_sensitive, r19_clause_components_not_replaced, r20_imports_entry_always_built, r21_column_list_normalised]
